@@ -129,7 +129,7 @@ align 16
 mk_global  pq_gen_avx2, function
 func(pq_gen_avx2)
 	FUNC_SAVE
-	sub	vec, 3			;Keep as offset to last source
+	sub	DWORD(vec), 3			;Keep as offset to last source (vects is an int: a negative count fails the test below)
 	jng	return_fail		;Must have at least 2 sources
 	cmp	len, 0
 	je	return_pass
